@@ -16,6 +16,9 @@ type Mutant struct {
 	Why    string
 }
 
+// MutantExtra: optional second replacement in the same file (e.g. an added import), keyed by "Prop/Name".
+var MutantExtra = map[string][2]string{}
+
 var Mutants = []Mutant{}
 
 func addMutants(ms ...Mutant) { Mutants = append(Mutants, ms...) }
